@@ -415,6 +415,14 @@ int scan_from_with(var input, int pos, const char* fmt, var args) {
         pos += off;
       }
       
+      else if (strchr("di", *fmt) and not strchr(fmt_buf, 'l')) {
+        int tmp = 0;
+        int err = format_from(input, pos, fmt_buf, &tmp, &off);
+        if (err < 1) { throw(FormatError, "Unable to input Int!"); }
+        pos += off;
+        assign(a, $I(tmp));
+      }
+      
       else if (strchr("diouxX", *fmt)) {
         long tmp = 0;
         int err = format_from(input, pos, fmt_buf, &tmp, &off);
